@@ -43,3 +43,19 @@ Proof.
   auto.
 Qed.
 Print Assumptions C08_memory_private.
+
+(* ---- on the specification function (Spec.v), which every configuration is proved to run on the core fragment - any
+        history policy on every submachine, any nesting depth (Properties_C01: C01_every_configuration_runs_the_specified_selection) ---- *)
+From Msm Require Import Spec Lemmas_Core Lemmas_SpecProps.
+
+(* leaving a machine and entering it again by an event of type ety: the regions are placed on the initial states
+   (no history), on the states active when it was left (always), or on those iff ety is in the policy's list (shallow) *)
+Theorem C08_spec_exit_entry_cycle : forall mc c ety,
+  sp_hist_entry mc (sp_post_exit mc c) ety =
+  match m_hist mc with
+  | HNone => m_inits mc
+  | HAlways => c_act c
+  | HShallow evs => if memb ety evs then c_act c else m_inits mc
+  end.
+Proof. exact sp_history_cycle. Qed.
+Print Assumptions C08_spec_exit_entry_cycle.
